@@ -167,6 +167,18 @@ def check(chk):
         chk.judge(ok, 'C20.newconn', f, '%s: keyspace selected before the connection is published (when the pool has one)' % q,
                   'a new connection can be handed out before the pool\'s keyspace was selected on it')
 
+    # ---- the constructors select one snapshot of the session keyspace on every connection and record exactly that value
+    chk.rule('C20.snapshot', 'pool constructors: self._keyspace = session.keyspace is taken once, before any set_keyspace_blocking, and it is what every connection is switched to')
+    from ..cfg import CFG as _CFG20
+    for cls_ in ('HostConnection', 'HostConnectionPool'):
+        ini = pool.func('%s.__init__' % cls_)
+        g20 = _CFG20(ini)
+        rec = [n for n in g20.stmt_nodes() if n.kind == 'stmt' and isinstance(n.ast, ast.Assign) and src(n.ast.targets[0]) == 'self._keyspace']
+        sks = [(n, x) for n in g20.stmt_nodes() if n.kind == 'stmt' and n.ast is not None for x in ast.walk(n.ast) if isinstance(x, ast.Call) and isinstance(x.func, ast.Attribute) and x.func.attr == 'set_keyspace_blocking']
+        oks = len(rec) == 1 and src(rec[0].ast.value) == 'session.keyspace' and bool(sks) and all([src(a_) for a_ in x.args] == ['self._keyspace'] and g20.dominates(rec[0], n) for n, x in sks)
+        chk.judge(oks, 'C20.snapshot', ini, '%s.__init__: one snapshot of session.keyspace, recorded first and selected on every connection' % cls_,
+                  'the constructor reads session.keyspace again for each connection (or records it afterwards): a USE that completes while the pool is being built leaves earlier connections on the old '
+                  'keyspace while the pool records the new one - add_or_renew_pool\'s catch-up then sees nothing to repair')
     # ---- legacy pool: set_keyspace_async may call back inline (nothing to do on that connection): the set of connections still awaited must be complete before the first call
     chk.rule('C20.awaited', 'HostConnectionPool._set_keyspace_for_all_conns: the awaited set is built from the whole collection the loop iterates, before the loop; it only shrinks afterwards')
     lk = pool.func('HostConnectionPool._set_keyspace_for_all_conns')
